@@ -629,4 +629,38 @@ theorem acceptRoutine_panics_iff (f : AcceptFailure) :
     acceptRoutineOn (acceptErrOf f) = .panic ↔ (f = .resolveIPs ∨ f = .listenerFails) := by
   cases f <;> simp [acceptErrOf, acceptRoutineOn]
 
+/-! ## after hand-over: a send nobody will receive must be guarded -/
+
+open Tmv.ReactorMsgs in
+/-- A channel send guarded by the service's `IsRunning` never blocks forever, provided the consumer
+lives as long as the service runs (the reactor's `poolRoutine` and the block pool): however many
+messages a peer makes the reactor report — before, during or after the hand-over to consensus —
+each report is sent, skipped, or waits for a consumer that exists. -/
+theorem guarded_send_never_blocks_forever (running : Bool) (c : BChan)
+    (hlive : running = true → c.consumer = true) (n : Nat) :
+    SendRes.blockedForever ∉ chanSends true running n c := by
+  induction n generalizing c with
+  | zero => simp [chanSends]
+  | succ k ih =>
+    simp only [chanSends, List.mem_cons, not_or]
+    constructor
+    · unfold chanSend
+      cases running <;> simp_all
+      split <;> simp
+    · apply ih
+      intro hr
+      have := hlive hr
+      unfold chanSend
+      cases running <;> simp_all
+      split <;> simp_all
+
+open Tmv.ReactorMsgs in
+/-- …and why the guard is needed: WITHOUT it, once the consumer is gone (fast sync handed over)
+the send after the `cap`-th blocks forever — with the pool lock held. -/
+theorem unguarded_send_blocks_after_cap (cap : Nat) (running : Bool) :
+    (chanSend false running ⟨cap, cap, false⟩).2 = .blockedForever ∧
+    (chanSends false false 4 ⟨3, 0, false⟩).getLast? = some .blockedForever ∧
+    SendRes.blockedForever ∉ chanSends true false 4 ⟨3, 0, false⟩ := by
+  refine ⟨by simp [chanSend], by decide, guarded_send_never_blocks_forever false _ (by simp) _⟩
+
 end Tmv.Props.C17
